@@ -76,6 +76,7 @@ Call(f, a) ==      \* positional call
     [] f = "swap"   -> IF Len(a) = 2 THEN FTup(<<a[2], a[1]>>) ELSE FErr
     [] f = "const7" -> IF Len(a) = 0 THEN FOk(Leaf(7)) ELSE FErr
     [] f = "odd"    -> IF Len(a) = 1 /\ IsLeaf(a[1]) THEN FOk(Leaf(a[1].v % 2)) ELSE FErr
+    [] f = "mod3"   -> IF Len(a) = 1 /\ IsLeaf(a[1]) THEN FOk(Leaf(a[1].v % 3)) ELSE FErr      \* truthy values other than True
     [] f = "gt"     -> IF Len(a) = 2 /\ IsLeaf(a[1]) /\ IsLeaf(a[2]) THEN FOk(Leaf(IF a[1].v > a[2].v THEN 1 ELSE 0)) ELSE FErr
     [] f = "mkdict" -> IF Len(a) = 1 /\ IsLeaf(a[1]) THEN FOk(Dict(<<"p", "q">>, <<Leaf(a[1].v), Leaf(a[1].v + 1)>>)) ELSE FErr
     [] f = "sumab"  -> IF Len(a) = 1 /\ ~IsErr(Get(a[1], K("a"))) /\ ~IsErr(Get(a[1], K("b")))
@@ -227,7 +228,8 @@ Keys == {
   Assign(<<OM(<<"c", "d">>, <<"q", "p">>)>>, "mkdict", <<IP(A)>>), Assign(<<OP(C)>>, "sumab", <<IP(SELF)>>),
   Assign(<<OP(C)>>, "const7", <<>>), Assign(<<OP(MZ)>>, "inc", <<IP(A)>>), AssignKw(<<OP(C)>>, "sub", <<IP(A), IP(B)>>, <<"y", "x">>),
   Assign(<<OP(C), OP(D)>>, "inc", <<IP(A)>>), Assign(<<OP(C)>>, "sub", <<IP(A), IL(7)>>), Assign(<<OP(SELF)>>, "inc", <<IP(A)>>),
-  Filter("odd", <<IP(NX)>>), Filter("odd", <<IP(SELF)>>), Op("filter", "odd", <<IP(A)>>, <<"x">>, <<>>, 0),
+  Filter("odd", <<IP(NX)>>), Filter("odd", <<IP(SELF)>>), Filter("mod3", <<IP(B)>>), Filter("ident", <<IP(K("n"))>>),
+  Assign(<<OP(C), OP(NY)>>, "pair", <<IP(A)>>), Assign(<<OP(NY), OP(C)>>, "pair", <<IP(A)>>), Op("filter", "odd", <<IP(A)>>, <<"x">>, <<>>, 0),
   Sink(<<IP(A)>>), Sink(<<IP(NX), IL(7)>>), SinkKw(<<IP(A)>>, <<"x">>),
   Select(<<IP(C)>>, <<OP(C)>>), Assign(<<OP(D)>>, "inc", <<IP(C)>>), Filter("odd", <<IP(C)>>) }
 Fail == {
@@ -258,7 +260,7 @@ PlainAssign(o) == o.op = "assign" /\ \A m \in 1..Len(o.outs) : o.outs[m].t = "pa
 FilterLaw == OnlyOps({"filter", "sink"}) => \A s \in 1..NS : IsSubSeqOf(E(s).out, Streams[s])
 \* assign adds exactly the named keys: every other top-level key of the input record is read back unchanged
 AssignLaw ==
-  (OnlyOps({"assign"}) /\ \A j \in 1..Len(prog) : PlainAssign(prog[j]) /\ Len(prog[j].outs[1].p) = 1) =>
+  (OnlyOps({"assign"}) /\ \A j \in 1..Len(prog) : PlainAssign(prog[j]) /\ \A m \in 1..Len(prog[j].outs) : Len(prog[j].outs[m].p) = 1) =>
      \A s \in 1..NS : ~E(s).err =>
         /\ Len(E(s).out) = Len(Streams[s])
         /\ \A i \in 1..Len(Streams[s]) : \A q \in {A, B, K("n")} :
